@@ -32,7 +32,7 @@ type CaseC09 struct {
 	Tail   int        `json:"tail"`    // decoded path: 0xFF bytes after the section in the decoder's input
 }
 
-const c09Kinds = 46
+const c09Kinds = 47
 
 func genC09(t *rapid.T) CaseC09 {
 	c := CaseC09{}
@@ -227,6 +227,8 @@ type c09State struct {
 	// arena is the caller-side buffer the byte slices given to setters are cut from, one directly
 	// behind the other: each slice's spare capacity is the memory of the slices handed over later
 	arena, arenaKeep []byte
+	// getterFail: set by a history step whose getters did not reflect the setters just called
+	getterFail string
 }
 
 // window copies b to the end of the arena and returns that window of it
@@ -370,6 +372,26 @@ func c09Apply(st *c09State, mu MutC09) string {
 			return ""
 		}
 		return fmt.Sprintf("command.SetPTS(%#x)", mu.V)
+	case 46:
+		// edit a component of a (decoded) splice_insert through the handle Components() returns; the API has no other
+		// way to reach them
+		if !isIns {
+			return ""
+		}
+		hs := ins.Components()
+		if len(hs) == 0 || len(hs) != len(m.Ins.Comps) {
+			return ""
+		}
+		i := int(mu.V>>41) % len(hs)
+		tag := byte(mu.V >> 33)
+		hs[i].SetComponentTag(tag)
+		hs[i].SetHasPTS(mu.B)
+		hs[i].SetPTS(gots.PTS(mu.V)) // possibly wider than the field: truncated to 33 bits
+		m.Ins.Comps[i] = ref.SpliceComp{Tag: tag, HasPTS: mu.B, PTS: mu.V & m33}
+		if g := ins.Components()[i]; g.ComponentTag() != tag || g.HasPTS() != mu.B || uint64(g.PTS()) != mu.V&m33 {
+			st.getterFail = fmt.Sprintf("insert component %d after SetComponentTag(%#x) SetHasPTS(%v) SetPTS(%#x): getters report (%#x, %v, %#x)", i, tag, mu.B, mu.V, g.ComponentTag(), g.HasPTS(), uint64(g.PTS()))
+		}
+		return fmt.Sprintf("insert.Components()[%d].SetComponentTag(%#x)/SetHasPTS(%v)/SetPTS(%#x)", i, tag, mu.B, mu.V)
 	case 36:
 		c := scte35.CreateTimeSignalCommand()
 		c.SetHasPTS(true)
@@ -776,6 +798,9 @@ func checkC09(c CaseC09, x *hx.Ctx) *hx.Failure {
 		}
 		if h := c09Apply(st, mu); h != "" {
 			hist = append(hist, h)
+			if st.getterFail != "" {
+				return hx.Failf("component-getter", "%s (history %v)", st.getterFail, hist)
+			}
 			if !mu.B && (mu.Kind == 3 || mu.Kind == 6 || mu.Kind == 14 || mu.Kind == 17 || mu.Kind == 19 || mu.Kind == 37 || mu.Kind == 29) {
 				cleared = true
 			}
